@@ -463,6 +463,8 @@ class Dispatcher(BaseDispatcher, Generic[ContextType]):
                             if not isinstance(resp, UnsetType)
                         ),
                     )
+                    if len(response) == 0:
+                        response = UNSET
             else:
                 response = self._request_handler(request, context)
 
@@ -610,6 +612,8 @@ class AsyncDispatcher(BaseDispatcher, Generic[ContextType]):
                             if resp
                         ),
                     )
+                    if len(response) == 0:
+                        response = UNSET
             else:
                 response = await self._request_handler(request, context)
 
